@@ -474,7 +474,7 @@ func rulesC10(e *Engine, r *Report) {
 	// ---------------------------------------------------------------- R10.9
 	e.shareRule(r, "C19", "R19.5", "R10.9", "a group is ordered by its own tag: the tagger main hands to the queue answers a group name - which the grouper makes the tag's own name when group-by yields nothing - with that tag, not with the default tag whose order and predecessor policy differ")
 	// ---------------------------------------------------------------- R10.10
-	r.Rule("R10.10", "taking the head out of a group does not cut the chain: when removeFile replaces the group's head it puts the successor there only if there is one, and otherwise the node before it - the completed file the queue keeps as place holder so that whatever is pushed next (the same name again, after a rewrite) still announces it as predecessor")
+	r.Rule("R10.10", "the place holder survives both ways a head can go: (a) removeFile moves the head exactly to the successor (nil when there is none) - Pop relies on that nil to install the file it has just completed as the new place holder, the one the next file announces; (b) when Push takes out an earlier instance of a name that was the only file left of its group, the completed file before it - read before the instance is unlinked - goes back to the head, so that the new instance still announces it")
 	if fn := needFn(e, r, "R10.10", "queue.(*Tagged).removeFile"); fn != nil {
 		n := 0
 		Instrs(fn, func(in ssa.Instruction) {
@@ -484,18 +484,39 @@ func rulesC10(e *Engine, r *Report) {
 			}
 			n++
 			v := e.Canon(mu.Value)
-			switch v {
-			case "p1.prev", "phi(p1.prev|p1.next)", "phi(p1.next|p1.prev)":
-				r.Ok("R10.10", "queue.(*Tagged).removeFile: head falls back to the node before", e.InstrPos(in), 1, v)
-			case "p1.next":
-				cls := labeler(C("(p1.next != nil)", "hasNext"), C("(nil != p1.next)", "hasNext"))
-				e.Guarded(r, "R10.10", "queue.(*Tagged).removeFile: head moves to the successor only if there is one", fn, only(in), cls,
-					func(l LabelSet) bool { return l.Has("hasNext") }, "file.next != nil")
-			default:
-				r.Bad("R10.10", "queue.(*Tagged).removeFile: new head", e.InstrPos(in), "the head is replaced by `"+v+"`, neither the successor nor the node before", 1)
-			}
+			r.Check(v == "p1.next", "R10.10", "queue.(*Tagged).removeFile: the head moves to the successor, nil when there is none", e.InstrPos(in),
+				"removeFile replaces the head by `"+v+"`: Pop takes a nil head after it as the sign to install the file just completed as the place holder - with anything else there the next file announces an older predecessor", 1, v)
 		})
 		r.Min("R10.10", "head replacements in removeFile", n, 1)
+	}
+	if fn := needFn(e, r, "R10.10", "queue.(*Tagged).Push"); fn != nil {
+		rms := e.findInstrs(fn, "call(queue.(*Tagged).removeFile)(p0, §)", false)
+		r.Min("R10.10", "removals of an earlier instance in Push", len(rms), 1)
+		for _, rm := range rms {
+			orig := e.Canon(rm.(*ssa.Call).Call.Args[1])
+			cls := labeler(
+				I("mapupdate(p0.headFile[§] = "+orig+".prev)", "restored"),
+				C("(p0.headFile[§] != nil)", "hasHead"),
+			)
+			unl := e.instrMatch("call(queue.(*sortedFile).unlink)(" + orig + ")")
+			res := e.Flow(fn, FlowOpts{Classify: cls, StartAfter: rm, Target: unl, StopAtTarget: true})
+			nn := e.judge(r, "R10.10", "queue.(*Tagged).Push: between removing the earlier instance and unlinking it the head is kept or handed back to the node before", fn, res,
+				func(l LabelSet) bool { return l.HasAny("restored", "hasHead") }, "headFile[group] != nil, or headFile[group] = orig.prev")
+			r.Min("R10.10", "paths from removeFile to unlink in Push", nn, 1)
+			// the node before is read while the instance is still linked
+			okOrder := false
+			Instrs(fn, func(in ssa.Instruction) {
+				if mu, ok := in.(*ssa.MapUpdate); ok && e.Canon(mu.Value) == orig+".prev" {
+					if ld, ok := mu.Value.(*ssa.UnOp); ok {
+						if ld.Block() == rm.Block() && indexIn(ld.Block(), ld) < indexIn(rm.Block(), rm) || (ld.Block() != rm.Block() && ld.Block().Dominates(rm.Block())) {
+							okOrder = true
+						}
+					}
+				}
+			})
+			r.Check(okOrder, "R10.10", "queue.(*Tagged).Push: the node before is read before the instance is taken out", e.InstrPos(rm),
+				"orig.prev is read after removeFile/unlink: by then it is nil", 1)
+		}
 	}
 }
 
